@@ -106,6 +106,22 @@ void function_level(vf::Ctx& c)
             }
             break;
         }
+        case 6:
+        {
+            // all products w * W^beta positive subnormal numbers (tiny data, any beta that leaves them positive): the sum that
+            // normalises them is subnormal too - the weights are still a probability vector (judged by the invariants)
+            extreme = true;
+            for (std::size_t i = 0; i != n; ++i)
+            {
+                if (!(w[i] > T(0))) { data[i] = T(0); continue; }
+                long double const target = static_cast<long double>(std::numeric_limits<T>::denorm_min()) * (1 + t.pick(1000));
+                long double const datum = std::pow(target / static_cast<long double>(w[i]), 1.0L / static_cast<long double>(beta));
+                data[i] = static_cast<T>(datum);
+                if (!std::isfinite(data[i]) || !(data[i] > T(0))) { data[i] = std::numeric_limits<T>::denorm_min(); }
+            }
+            c.label("subnormal-products");
+            break;
+        }
         default:
         {
             for (auto& x : data)
